@@ -1086,12 +1086,15 @@ func run(args []string) error {
 		var enc string
 		var unsignedFlag bool
 		if isVerify {
-			var m map[string]interface{}
-			if json.Unmarshal([]byte(q.body), &m) == nil {
-				enc, _ = m["encoded_transaction"].(string)
-				unsignedFlag, _ = m["unsigned"].(bool)
+			// decode the request the way verifyTxnHandler does; only requests that get
+			// as far as VerifyTxnVerbose are cases of the modelled decision
+			var vr api.VerifyTransactionRequest
+			ct := q.ctype
+			if (ct == "application/json" || strings.HasPrefix(ct, "application/json;")) &&
+				json.NewDecoder(strings.NewReader(q.body)).Decode(&vr) == nil && vr.EncodedTransaction != "" {
+				enc, unsignedFlag = vr.EncodedTransaction, vr.Unsigned
+				fc = n.facts(enc, unsignedFlag)
 			}
-			fc = n.facts(enc, unsignedFlag)
 		}
 		ob := n.do(id, q, timeout)
 		if ob.kind == "hang" {
